@@ -155,7 +155,18 @@ static void CasePointCloudBuilder(Rng &r, Reporter &rep) {
     std::vector<int> ids;
     for (auto &s : atts) ids.push_back(pb.AddAttribute(s.type, s.nc, s.dt));
     for (int a = 0; a < na; ++a) {
-      if (r.below(2)) pb.SetAttributeValuesForAllPoints(ids[a], atts[a].data.data(), atts[a].stride());
+      const int lay = static_cast<int>(r.below(6));
+      if (lay == 0) pb.SetAttributeValuesForAllPoints(ids[a], atts[a].data.data(), atts[a].stride());
+      else if (lay == 1) pb.SetAttributeValuesForAllPoints(ids[a], atts[a].data.data(), 0);  // 0 = tightly packed
+      else if (lay == 2) {
+        // Array-of-structs input: the value sits at a random offset inside a larger record (byte stride > element size);
+        // the bytes around it are filled with a pattern that is no value of the attribute.
+        const size_t es = atts[a].stride(), lead = r.below(9), rec = lead + es + 1 + r.below(12);
+        std::vector<uint8_t> inter(static_cast<size_t>(np) * rec + es, 0xA5);
+        for (int p = 0; p < np; ++p) memcpy(&inter[p * rec + lead], &atts[a].data[p * es], es);
+        pb.SetAttributeValuesForAllPoints(ids[a], inter.data() + lead, static_cast<int>(rec));
+        rep.count("pc_builder_interleaved_inputs");
+      }
       else if (r.below(2)) for (int p = 0; p < np; ++p) pb.SetAttributeValueForPoint(ids[a], PointIndex(p), &atts[a].data[p * atts[a].stride()]);
       else for (int p = np - 1; p >= 0; --p) pb.SetAttributeValueForPoint(ids[a], PointIndex(p), &atts[a].data[p * atts[a].stride()]);
       pb.SetAttributeUniqueId(ids[a], atts[a].uid);
